@@ -72,6 +72,8 @@ pub struct FullWorld {
     pub hung: Option<String>,
     pub steps: usize,
     pub choice_log: Vec<(usize, usize, usize, bool)>,
+    refusing: Rc<RefCell<Vec<String>>>,
+    storm: Rc<RefCell<(Option<tokio::time::Instant>, usize, bool)>>,
     /// Per peer: everything the client wrote on the first connection to it (short form).
     pub first_conn_msgs: Vec<Vec<String>>,
 }
@@ -119,8 +121,25 @@ impl FullWorld {
         let td = tracker_default.clone();
         let an = announces.clone();
         let cfgs: Vec<PeerCfg> = peer_cfgs.to_vec();
+        let storm: Rc<RefCell<(Option<tokio::time::Instant>, usize, bool)>> = Rc::new(RefCell::new((None, 0, false)));
+        let storm2 = storm.clone();
         rdest::verif::set_http(Some(Box::new(move |req: &reqwest::Request| {
             an.borrow_mut().push(req.url().as_str().to_string());
+            // an announce loop that makes no virtual time pass would never let a step end: after 64
+            // announces at one instant the tracker stops answering and the world is marked as hung
+            {
+                let mut st = storm2.borrow_mut();
+                let now = tokio::time::Instant::now();
+                if st.0 == Some(now) {
+                    st.1 += 1;
+                } else {
+                    *st = (Some(now), 1, st.2);
+                }
+                if st.1 > 64 {
+                    st.2 = true;
+                    return httpfake::refused();
+                }
+            }
             let outcome = ts.borrow_mut().pop_front().unwrap_or_else(|| td.borrow().clone());
             match outcome {
                 TrackerOutcome::Refused => httpfake::refused(),
@@ -153,6 +172,8 @@ impl FullWorld {
             hung: None,
             steps: 0,
             choice_log: vec![],
+            refusing,
+            storm,
             first_conn_msgs: vec![vec![]; peer_cfgs.len()],
         };
         w.run_step(None, &[]);
@@ -220,6 +241,9 @@ impl FullWorld {
         if let Err(p) = res {
             self.hung = Some(format!("harness step panicked: {}", p));
         }
+        if self.storm.borrow().2 && self.hung.is_none() {
+            self.hung = Some("announce storm: more than 64 tracker requests without any virtual time passing".to_string());
+        }
         let groups = rdest::verif::take_choice_groups();
         let log = rdest::verif::take_choice_log();
         self.choice_log = log.iter().zip(groups.iter()).map(|(l, g)| (l.0, l.1, g.0, g.1)).collect();
@@ -256,6 +280,17 @@ impl FullWorld {
                 }
             }
         }
+    }
+
+    /// From now on connects to this peer's address are refused (or accepted again).
+    pub fn set_refuse(&mut self, i: usize, refuse: bool) {
+        let addr = self.peers[i].cfg.addr.clone();
+        let mut r = self.refusing.borrow_mut();
+        r.retain(|a| *a != addr);
+        if refuse {
+            r.push(addr);
+        }
+        self.peers[i].refuse = refuse;
     }
 
     pub fn session_alive(&self) -> bool {
